@@ -162,6 +162,9 @@ def full(case):
     d["q0"] = case["q0"].tolist()
     d["z"] = case["z"].tolist()
     d["profiles"] = [p.tolist() for p in case["profiles"]]
+    for extra in ("_present", "_threads", "_alias"):
+        if case.get(extra):
+            d[extra] = case[extra]
     return d
 
 
@@ -170,6 +173,9 @@ def from_full(d):
              profiles=tuple(np.array(p, dtype=float) for p in d["profiles"]),
              domain=tuple(d["domain"]), levels=d["levels"], modes=tuple(d["modes"]), meas_pt=tuple(d["meas_pt"]),
              bg=d["bg"], footprint=d["footprint"], analytic=d["analytic"], halo=d["halo"], precision=d["precision"])
+    for extra in ("_present", "_threads", "_alias"):
+        if d.get(extra):
+            c[extra] = d[extra]
     return c
 
 
@@ -177,14 +183,58 @@ def from_full(d):
 # implementation
 
 
-def call(S, case, cache=None, **over):
+def build_args(case):
+    """the objects actually handed to the solver.  case["_present"] chooses HOW the values are presented (the values
+    themselves, which the model receives, are unchanged): integer-typed arrays for integer-valued data, the
+    measurement point as a float64 ndarray, the levels as an int64 ndarray."""
+    pres = case.get("_present") or {}
+    q0, z, prof, meas, levels = case["q0"], case["z"], case["profiles"], case["meas_pt"], case["levels"]
+    if pres.get("int"):
+        def asint(a):
+            b = np.asarray(a).astype(np.int64)
+            assert np.array_equal(b.astype(float), np.asarray(a, dtype=float)), "int presentation of non-integer data"
+            return b
+        q0, z, prof = asint(q0), asint(z), tuple(asint(a) for a in prof)
+    if pres.get("meas_nd"):
+        meas = np.array(meas, dtype=float)
+    if pres.get("levels_nd") and np.ndim(levels) > 0:
+        levels = np.array(levels_list(case), dtype=np.int64)
+    return dict(q0=q0, z=z, profiles=prof, meas_pt=meas, levels=levels)
+
+
+def _snapshot(objs):
+    snap = {}
+    for name, a in (("q0", objs["q0"]), ("z", objs["z"]), ("meas_pt", objs["meas_pt"]), ("levels", objs["levels"])):
+        if isinstance(a, np.ndarray):
+            snap[name] = (a, a.copy(), a.dtype)
+    for i, a in enumerate(objs["profiles"]):
+        if isinstance(a, np.ndarray):
+            snap["profiles[%d]" % i] = (a, a.copy(), a.dtype)
+    return snap
+
+
+def _mutated(snap):
+    return [n for n, (a, before, dt) in snap.items() if a.dtype != dt or a.shape != before.shape or not np.array_equal(a, before, equal_nan=True)]
+
+
+def call(S, case, cache=None, objs=None, **over):
     c = dict(case)
     c.update(over)
+    o = objs or build_args(c)
     kw = {} if cache is None else {"cache": cache}
-    return S.steady_state_transport_solver(
-        c["q0"], c["z"], c["profiles"], c["domain"], c["levels"], modes=c["modes"], meas_pt=c["meas_pt"],
-        srf_bg_conc=c["bg"], footprint=c["footprint"], analytic=c["analytic"], halo=c["halo"],
-        precision=c["precision"], **kw)
+    thr = c.get("_threads")
+    if thr:
+        import bldfm.config as bcfg
+        old = bcfg.NUM_THREADS
+        bcfg.NUM_THREADS = int(thr)
+    try:
+        return S.steady_state_transport_solver(
+            o["q0"], o["z"], o["profiles"], c["domain"], o["levels"], modes=c["modes"], meas_pt=o["meas_pt"],
+            srf_bg_conc=c["bg"], footprint=c["footprint"], analytic=c["analytic"], halo=c["halo"],
+            precision=c["precision"], **kw)
+    finally:
+        if thr:
+            bcfg.NUM_THREADS = old
 
 
 def levels_list(case):
@@ -194,36 +244,40 @@ def levels_list(case):
     return [int(l) for l in lv]
 
 
-def run_impl(S, case, cache=None, scribble=False):
+def run_impl(S, case, cache=None, scribble=False, objs=None):
     """scribble=True plays a caller that edits the arrays it was given in place (normalising, clipping) after the
-    result has been recorded: a later call must not see those edits"""
+    result has been recorded: a later call must not see those edits.  Every array handed to the solver is compared
+    with a copy taken before the call: a call that edits its caller's arrays is recorded under "mutated"."""
     ny, nx = case["q0"].shape
     nl = len(levels_list(case))
+    objs = objs or build_args(case)
+    snap = _snapshot(objs)
     try:
         with np.errstate(all="ignore"):
-            (X, Y, Z), conc, flx = call(S, case, cache=cache)
+            (X, Y, Z), conc, flx = call(S, case, cache=cache, objs=objs)
         raw = (X, Y, Z, conc, flx)
     except ValueError as e:
         if "even" in str(e):
-            return {"err": 1, "msg": str(e)}
+            return {"err": 1, "msg": str(e), "mutated": _mutated(snap)}
         if "negative" in str(e):
-            return {"err": 2, "msg": str(e)}
-        return {"err": 99, "msg": "ValueError: " + str(e)}
+            return {"err": 2, "msg": str(e), "mutated": _mutated(snap)}
+        return {"err": 99, "msg": "ValueError: " + str(e), "mutated": _mutated(snap)}
     except IndexError as e:
-        return {"err": 3, "msg": str(e)}
+        return {"err": 3, "msg": str(e), "mutated": _mutated(snap)}
     except Exception as e:  # noqa
-        return {"err": 99, "msg": type(e).__name__ + ": " + str(e)}
+        return {"err": 99, "msg": type(e).__name__ + ": " + str(e), "mutated": _mutated(snap)}
     conc = np.asarray(conc, dtype=float)
     flx = np.asarray(flx, dtype=float)
     if conc.size != nl * ny * nx or flx.size != nl * ny * nx or np.size(X) != nl * ny * nx:
-        return {"err": 98, "msg": "shape %r for source %r, %d levels" % (conc.shape, (ny, nx), nl), "shape": list(conc.shape)}
+        return {"err": 98, "msg": "shape %r for source %r, %d levels" % (conc.shape, (ny, nx), nl), "shape": list(conc.shape), "mutated": _mutated(snap)}
     X3, Y3, Z3 = (np.asarray(A, dtype=float).reshape(nl, ny, nx) for A in (X, Y, Z))
     x, y, z = X3[0, 0, :], Y3[0, :, 0], Z3[:, 0, 0]
     mesh_ok = bool(np.array_equal(X3, np.broadcast_to(x[None, None, :], X3.shape)) and
                    np.array_equal(Y3, np.broadcast_to(y[None, :, None], Y3.shape)) and
                    np.array_equal(Z3, np.broadcast_to(z[:, None, None], Z3.shape)))
     rec = {"err": 0, "x": x.copy(), "y": y.copy(), "z": z.copy(), "conc": conc.reshape(nl, ny, nx).copy(), "flx": flx.reshape(nl, ny, nx).copy(),
-           "shape": list(conc.shape), "mesh_ok": mesh_ok and list(np.shape(X)) == list(conc.shape) == list(flx.shape)}
+           "shape": list(conc.shape), "mesh_ok": mesh_ok and list(np.shape(X)) == list(conc.shape) == list(flx.shape),
+           "mutated": _mutated(snap)}
     if scribble:
         for A in raw:
             try:
@@ -297,7 +351,38 @@ def tolerance(case):
     return 2e-6 if case["precision"] == "single" else 1e-8
 
 
-SIBLING_KINDS = ["domain-x", "domain-y", "source-scale", "bg", "meas", "precision", "levels-reversed", "halo", "source-values"]
+SIBLING_KINDS = ["domain-x", "domain-y", "source-scale", "bg", "meas", "precision", "levels-reversed", "halo", "source-values",
+                 # round 4: the same array OBJECTS refilled in place by the caller between two calls; a request that
+                 # reaches the same padded extent with a smaller interior; integer-typed arrays; long level lists with
+                 # repeats; the tower at the origin cell; the same request under several numerical threads
+                 "source-inplace", "profiles-inplace", "interior-shrink", "int-dtype", "levels-many", "meas-origin", "threads"]
+ALIAS_KINDS = {"source-inplace": ["q0"], "profiles-inplace": ["profiles"]}
+
+
+def copy_case(case):
+    c = dict(case)
+    c["q0"] = np.array(case["q0"], dtype=float, copy=True)
+    c["z"] = np.array(case["z"], dtype=float, copy=True)
+    c["profiles"] = tuple(np.array(a, dtype=float, copy=True) for a in case["profiles"])
+    for k in ("_sibling", "_alias", "_present", "_threads", "_parent"):
+        c.pop(k, None)
+    return c
+
+
+def _resolved_halo(case):
+    return max(case["domain"]) if case["halo"] is None else case["halo"]
+
+
+def alias_parent(case, kind):
+    """a private copy of `case` that serves as the first call of an in-place pair (the given cases are never edited);
+    for source-inplace its source is quantised to multiples of 1/256 so that every re-arrangement has exactly the same
+    sum (a stale-content test that compares sums must not be able to tell the two sources apart)"""
+    c = copy_case(case)
+    if kind == "source-inplace":
+        c["q0"] = np.round(c["q0"] * 256.0) / 256.0
+        if not np.any(c["q0"]):
+            c["q0"][0, 0] = 1.0
+    return tame(c, bound=1e9)
 
 
 def sibling(rng, case, kind):
@@ -329,7 +414,100 @@ def sibling(rng, case, kind):
         c["levels"] = lv[::-1] if len(lv) > 1 else [lv[0], 0]
     elif kind == "halo":
         c["halo"] = 0.0 if case["halo"] is None or case["halo"] > 0 else float(case["domain"][0] / nx)
+    elif kind == "source-inplace":
+        # `case` is an alias_parent: same ndarray object, refilled in place with a re-arrangement of equal sum
+        q = case["q0"][::-1, ::-1].copy()
+        if np.array_equal(q, case["q0"]):
+            q = np.roll(case["q0"], 1, axis=1).copy()
+        if np.array_equal(q, case["q0"]):
+            q = case["q0"].copy()
+            q[0, 0] += 1.0
+        c["q0"] = q
+        c["_alias"] = ["q0"]
+    elif kind == "profiles-inplace":
+        u, v, Kx, Ky, Kz = (a.copy() for a in case["profiles"])
+        if np.any(u):
+            u = -u
+        else:
+            Kz = Kz * 2.0
+            if case["analytic"]:
+                pass
+        v = v * 0.5
+        c["profiles"] = (u, v, Kx, Ky, Kz)
+        c["_alias"] = ["profiles"]
+    elif kind == "interior-shrink":
+        if nx < 4 or ny < 4:
+            raise ValueError("too small to shrink")
+        dx, dy = case["domain"][0] / nx, case["domain"][1] / ny
+        h = _resolved_halo(case)
+        px, py = int(h / dx), int(h / dy)
+        c["q0"] = case["q0"][1:-1, 1:-1].copy()
+        c["domain"] = (float((nx - 2) * dx), float((ny - 2) * dy))
+        dx2, dy2 = c["domain"][0] / (nx - 2), c["domain"][1] / (ny - 2)
+        cands = [(px + 1) * dx2 * (1 + 1e-9), (py + 1) * dy2 * (1 + 1e-9), (px + 1.5) * dx2, (py + 1.5) * dy2]
+        good = [hh for hh in cands if int(hh / dx2) == px + 1 and int(hh / dy2) == py + 1]
+        if not good:
+            raise ValueError("no halo pads one more cell on both axes")
+        c["halo"] = float(good[0])
+    elif kind == "int-dtype":
+        nz = len(case["z"])
+        u, v, Kx, Ky, Kz = case["profiles"]
+        c["z"] = np.arange(1.0, nz + 1.0)
+        if case["analytic"]:
+            ints = lambda a, lo, hi: np.full(nz, float(min(hi, max(lo, round(float(a[0]))))))
+        else:
+            ints = lambda a, lo, hi: np.clip(np.rint(np.asarray(a, dtype=float)), lo, hi)
+        c["profiles"] = (ints(u, -2, 2), ints(v, -2, 2), ints(2 * Kx, 1, 3), ints(2 * Ky, 1, 3), ints(2 * Kz, 1, 3))
+        c["q0"] = np.rint(case["q0"] * 8.0)
+        if not np.any(c["q0"]):
+            c["q0"][0, 0] = 3.0
+        c["domain"] = (32.0 * nx, 32.0 * ny)
+        c["halo"] = None if case["halo"] is None else 32.0 * int(case["halo"] / (case["domain"][0] / nx))
+        c["meas_pt"] = (32.0 * rng.randrange(nx), 32.0 * rng.randrange(ny)) if case["footprint"] else (0.0, 0.0)
+        c["_present"] = {"int": True}
+        return tame(c, bound=1e9)
+    elif kind == "levels-many":
+        nz = len(case["z"])
+        c["levels"] = [rng.randrange(nz) for _ in range(rng.choice([33, 37, 41]))]
+    elif kind == "meas-origin":
+        c["meas_pt"] = (0.0, 0.0)
+        if case["halo"] == 0.0:
+            c["halo"] = float(1.3 * case["domain"][0] / nx)
+    elif kind == "threads":
+        c["_threads"] = 4
     return tame(c, bound=1e9)  # keep the column (same z): only recompute the growth figure
+
+
+def run_pair(S, parent, sib):
+    """first `parent`, then `sib` right after it in the same process.  For the in-place kinds (sib["_alias"]) the second
+    call receives the SAME array objects the first call was given, refilled in place with the sibling's values — what a
+    script does that loops over scenarios re-using its buffers.  Returns (record of parent, record of sibling)."""
+    pobjs = build_args(parent)
+    rp = run_impl(S, parent, objs=pobjs)
+    alias = sib.get("_alias") or []
+    if not alias:
+        return rp, run_impl(S, sib)
+    sobjs = build_args(sib)
+    saved = {}
+    for name in alias:
+        if name == "profiles":
+            saved[name] = [a.copy() for a in pobjs["profiles"]]
+            for a, new in zip(pobjs["profiles"], sib["profiles"]):
+                a[...] = new
+        else:
+            saved[name] = pobjs[name].copy()
+            pobjs[name][...] = sib[name]
+        sobjs[name] = pobjs[name]
+    try:
+        rs = run_impl(S, sib, objs=sobjs)
+    finally:
+        for name in alias:
+            if name == "profiles":
+                for a, old in zip(pobjs["profiles"], saved[name]):
+                    a[...] = old
+            else:
+                pobjs[name][...] = saved[name]
+    return rp, rs
 
 
 def _cache_cls():
@@ -399,11 +577,21 @@ def stress_probe(body, workdir):
                         % (lab, what, _dev(got.get("conc", []), ref.get("conc", [])) if ref["err"] == 0 and got["err"] == 0 else float("nan"),
                            _dev(got.get("flx", []), ref.get("flx", [])) if ref["err"] == 0 and got["err"] == 0 else float("nan")))
         return None
+    if st["kind"] == "consistency":
+        r = consistency_probe(S, base, workdir)
+        return r[0] if r else None
+    if st["kind"] == "mutated":
+        r = run_impl(S, base)
+        if r.get("mutated"):
+            return ("state:call-edits-its-callers-arrays:" + ",".join(sorted(n.split("[")[0] for n in r["mutated"])),
+                    "after the call the caller's %s no longer hold the values that were passed in" % ", ".join(r["mutated"]))
+        return None
     if st["kind"] == "sibling":
         parent = from_full(st["parent"])
-        run_impl(S, parent)
-        got = run_impl(S, base)
-        alone = fresh_process_result(base, workdir)
+        _, got = run_pair(S, parent, base)
+        alone_case = dict(base)
+        alone_case.pop("_threads", None)
+        alone = fresh_process_result(alone_case, workdir)
         if got["err"] != alone["err"]:
             return ("state:outcome-depends-on-previous-call:" + st["varied"], "after a solve differing only in %s the call %s, alone in a fresh process it %s" % (st["varied"], ERR.get(got["err"], "returns"), ERR.get(alone["err"], "returns")))
         if got["err"] == 0:
@@ -414,6 +602,62 @@ def stress_probe(body, workdir):
                         "the same request returns different fields after a solve that differs only in %s than alone in a fresh process (rel dev conc %.3g, flx %.3g)" % (st["varied"], dc, df))
         return None
     return None
+
+
+def consistency_probe(S, case, workdir):
+    """Checks that hold for EVERY solver-family property because each of them speaks about "the solution at the
+    requested level for the given arguments": (a) slot k of a multi-level request equals the single-level request for
+    that node, (b) the result does not depend on how the values are presented (integer vs float arrays, tuple vs ndarray
+    measurement point, list vs ndarray levels), (c) the call leaves its arguments alone, (d) the same request alone in a
+    fresh process gives the same fields.  At most one of two differing answers can be the solution the property
+    describes, so each hit is a concrete input on which the property fails.  Returns a list of (signature, detail)."""
+    out = []
+    tol = 1e-4 if case["precision"] == "single" else 1e-9
+    got = run_impl(S, case)
+    if got.get("mutated"):
+        out.append(("state:call-edits-its-callers-arrays:" + ",".join(sorted(n.split("[")[0] for n in got["mutated"])),
+                    "after the call the caller's %s no longer hold the values that were passed in" % ", ".join(got["mutated"])))
+    if got["err"] not in (0,):
+        return out
+    lv = levels_list(case)
+    if len(lv) > 1:
+        for k, node in list(enumerate(lv))[:48]:
+            one = dict(case)
+            one["levels"] = [node]
+            one.pop("_present", None)
+            r1 = run_impl(S, one)
+            if r1["err"] != 0:
+                out.append(("consistency:single-level-request-fails", "levels=%r returns, levels=[%d] %s" % (lv, node, ERR.get(r1["err"], "fails"))))
+                break
+            dc, df = _dev(got["conc"][k], r1["conc"][0]), _dev(got["flx"][k], r1["flx"][0])
+            if dc > tol or df > tol:
+                out.append(("consistency:slot-differs-from-single-level-request",
+                            "slot %d of levels=%r differs from the single-level request for node %d (rel dev conc %.3g, flx %.3g)" % (k, lv, node, dc, df)))
+                break
+    if case.get("_present"):
+        plain = dict(case)
+        plain.pop("_present", None)
+        rp = run_impl(S, plain)
+        if rp["err"] == 0:
+            dc, df = _dev(got["conc"], rp["conc"]), _dev(got["flx"], rp["flx"])
+            if dc > tol or df > tol:
+                out.append(("presentation:result-depends-on-dtype-or-container:" + ",".join(sorted(case["_present"])),
+                            "the same values presented as %s give different fields than float64 arrays / tuple / list (rel dev conc %.3g, flx %.3g)" % (sorted(case["_present"]), dc, df)))
+        elif rp["err"] != got["err"]:
+            out.append(("presentation:outcome-depends-on-dtype-or-container", "plain presentation %s" % ERR.get(rp["err"], "fails")))
+    alone_case = dict(case)
+    alone_case.pop("_threads", None)
+    try:
+        alone = fresh_process_result(alone_case, workdir)
+        if alone["err"] == 0:
+            dc, df = _dev(got["conc"], alone["conc"]), _dev(got["flx"], alone["flx"])
+            if dc > tol or df > tol:
+                out.append(("state:result-differs-from-fresh-process" + (":threads" if case.get("_threads") else ""),
+                            "the request returns other fields in this process%s than alone in a fresh one (rel dev conc %.3g, flx %.3g)"
+                            % (" with %d numerical threads" % case["_threads"] if case.get("_threads") else "", dc, df)))
+    except Exception:
+        pass
+    return out
 
 
 def stress_oracle(ctx, hints):
@@ -429,6 +673,22 @@ def stress_oracle(ctx, hints):
             seen.add(r[0])
             out.append({"signature": r[0], "what": "%s: %s; request %r" % (ctx.prop, r[1], {k: v for k, v in h["case"].items() if k not in ("q0", "z", "profiles")}),
                         "replay": {"case": h["case"], "stress": h["stress"]}})
+    S = impl()
+    n = 0
+    for h in hints:
+        if not h or "case" not in h or not isinstance(h["case"], dict) or "q0" not in h["case"]:
+            continue
+        n += 1
+        if n > 8:
+            break
+        try:
+            for sig, detail in consistency_probe(S, from_full(h["case"]), ctx.build):
+                if sig not in seen:
+                    seen.add(sig)
+                    out.append({"signature": sig, "what": "%s: %s; request %r" % (ctx.prop, detail, {k: v for k, v in h["case"].items() if k not in ("q0", "z", "profiles")}),
+                                "replay": {"case": h["case"], "stress": {"kind": "consistency"}}})
+        except Exception:
+            continue
     return out
 
 
@@ -454,33 +714,68 @@ def correspond(ctx, cases, label, shard=6, jobs=14, timeout=900):
     S = impl()
     cases = list(cases)
     n_given = len(cases)
+    # presentation of the arguments: every second given case hands the measurement point over as a float64 ndarray,
+    # every third one its level list as an int64 ndarray (values unchanged; the model sees the same request)
+    for k in range(n_given):
+        pres = dict(cases[k].get("_present") or {})
+        if k % 2 == 0:
+            pres["meas_nd"] = True
+        if k % 3 == 1 and np.ndim(cases[k]["levels"]) > 0:
+            pres["levels_nd"] = True
+        if pres:
+            cases[k] = dict(cases[k], _present=pres)
     # every kind of one-argument variation occurs at least once per run (twice in the thorough tier)
     sib_of = {}
     want = SIBLING_KINDS * (2 if ctx.thorough else 1)
     free = list(range(n_given))
     ctx.rng.shuffle(free)
+    used = set()
+    skipped_kinds = []
     for kd in want:
-        ok = [k for k in free if k not in sib_of and not (kd in ("meas", "source-values") and not cases[k]["footprint"])
-              and not (kd in ("domain-x", "domain-y") and cases[k]["analytic"])]
-        if not ok:
-            continue
-        k = ok[0]
-        try:
-            sc_ = sibling(ctx.rng, cases[k], kd)
-        except Exception:
-            continue
-        sc_["_sibling"] = kd
-        cases.append(sc_)
-        sib_of[k] = len(cases) - 1
+        ok = [k for k in free if k not in used and not (kd in ("meas", "source-values", "meas-origin") and not cases[k]["footprint"])
+              and not (kd in ("domain-x", "domain-y") and cases[k]["analytic"])
+              and not (kd in ("source-inplace", "interior-shrink") and cases[k]["footprint"])
+              and not (kd == "threads" and cases[k]["analytic"])]
+        done = False
+        for k in ok:
+            try:
+                if kd in ALIAS_KINDS:
+                    par = alias_parent(cases[k], kd)
+                    sc_ = sibling(ctx.rng, par, kd)
+                    par["_sibling"] = kd + ":first-call"
+                    cases.append(par)
+                    pk = len(cases) - 1
+                else:
+                    sc_ = sibling(ctx.rng, cases[k], kd)
+                    pk = k
+            except Exception:
+                continue
+            sc_["_sibling"] = kd
+            cases.append(sc_)
+            sib_of[pk] = len(cases) - 1
+            used.add(k)
+            done = True
+            break
+        if not done:
+            skipped_kinds.append(kd)
     exec_order = []
-    for k in range(n_given):
+    for k in range(len(cases)):
+        if k in sib_of.values():
+            continue
         exec_order.append(k)
-        if k in sib_of:
-            exec_order.append(sib_of[k])
     terms = []
     impl_by = {}
     for k in exec_order:
-        impl_by[k] = run_impl(S, cases[k])
+        if k in sib_of:
+            impl_by[k], impl_by[sib_of[k]] = run_pair(S, cases[k], cases[sib_of[k]])
+        else:
+            impl_by[k] = run_impl(S, cases[k])
+    parent_of = {v: k for k, v in sib_of.items()}
+    for k in sorted(impl_by):
+        if impl_by[k].get("mutated"):
+            ctx.fail("correspondence", "%s:%s%d-argument-mutated" % (ctx.prop, label, k),
+                     "the call changed arrays that belong to its caller (%s); case %r" % (", ".join(impl_by[k]["mutated"]), describe(cases[k])),
+                     hint={"case": full(cases[k]), "stress": {"kind": "mutated", "which": impl_by[k]["mutated"]}})
     # cached repeats (implementation only; reference = uncached call, bit for bit)
     stress_fail = 0
     stress_n = 0
@@ -504,8 +799,13 @@ def correspond(ctx, cases, label, shard=6, jobs=14, timeout=900):
                          "with a GreensFunctionCache attached, step '%s' of the sequence store / hit after the caller edited the returned arrays in place / one-argument sibling / hit returned arrays (or a grid) that differ from the same solve without a cache; case %r" % (lab, describe(c_)),
                          hint={"case": full(base), "stress": {"kind": "cached-sequence", "step": lab, "sibling": full(sibc)}})
                 break
-    ctx.cov["stress"] = {"siblings": len(sib_of), "cached_sequence_steps": stress_n, "cached_sequence_failures": stress_fail,
-                         "rule": "siblings = one-argument variations executed right after their parent in one process and compared with the model; cached sequences = store / hit after in-place edit by the caller / sibling / hit, each compared bit for bit with the uncached call"}
+    ctx.cov["stress"] = {"siblings": len(sib_of), "sibling_kinds": sorted(cases[v]["_sibling"] for v in sib_of.values()), "sibling_kinds_without_a_suitable_case": skipped_kinds,
+                         "presentations": {"meas_pt as float64 ndarray": sum(1 for c in cases if (c.get("_present") or {}).get("meas_nd")),
+                                           "levels as int64 ndarray": sum(1 for c in cases if (c.get("_present") or {}).get("levels_nd")),
+                                           "integer-typed arrays": sum(1 for c in cases if (c.get("_present") or {}).get("int"))},
+                         "argument_arrays_checked_unchanged_after_every_call": True,
+                         "cached_sequence_steps": stress_n, "cached_sequence_failures": stress_fail,
+                         "rule": "siblings = one-argument variations executed right after their parent in one process and compared with the model (in-place kinds: the second call receives the same array objects, refilled by the caller); cached sequences = store / hit after in-place edit by the caller / sibling / hit, each compared bit for bit with the uncached call; every array argument is compared with a copy taken before the call"}
     impl_out = []
     for k, case in enumerate(cases):
         r = impl_by[k]
@@ -547,7 +847,7 @@ def correspond(ctx, cases, label, shard=6, jobs=14, timeout=900):
                 ctx.fail("correspondence", "%s:%s" % (ctx.prop, key),
                          "model and implementation differ: model outcome %s, rel dev conc %.3g flx %.3g (tol %.1g), structure/coords equal: %s, mesh ok: %s; case %r"
                          % (ERR.get(code, "result"), relc, relf, tol, struct, r["mesh_ok"], describe(case)),
-                         hint={"case": full(case), "dev": [relc, relf], **({"stress": {"kind": "sibling", "varied": case["_sibling"], "parent": full(cases[[p for p, q in sib_of.items() if q == k][0]])}} if "_sibling" in case else {})})
+                         hint={"case": full(case), "dev": [relc, relf], **({"stress": {"kind": "sibling", "varied": case["_sibling"], "parent": full(cases[parent_of[k]])}} if k in parent_of else {})})
         out.append(rec)
     return out[:n_given]
 
